@@ -86,9 +86,12 @@ def run(run: Run) -> int:
     run.prove(generated=["LazyConfig"])
     lab = Lab()
     try:
+        if not lab.model_ok:
+            run.notes.append("translator could not read the lazy-loading source (%s): histories are judged by "
+                             "the oracle only" % lab.unreadable)
         execute(run, lab, CORPUS, "lazy-corpus", "corpus")
         total_states = 0
-        for gi in range(len(lab.cfg["groups"])):
+        for gi in range(len(lab.cfg["groups"]) if lab.model_ok else 0):
             n, hs = lab.closure_histories(gi, 0)
             total_states += n
             # one shortest history per (state, event); events that are plain repeats are kept
